@@ -165,11 +165,27 @@ func init() {
 					stems = append(stems, "a\nb", "\nlead")
 				}
 				p = g.Pick(stems, "stem") + ext
+				if ext == ".tar.gz" && g.Chance(40, "plainGzSibling") {
+					// a sibling that shares only the LAST part of a two-part extension and sorts before the others
+					p = "a0.gz"
+				}
 			}
 			if dir != "" {
 				p = dir + "/" + p
 			}
 			if !g.pathUsable(p) {
+				p = g.NewPath()
+			}
+			return Step{Op: "write", Path: p, Data: g.SmallContent()}
+		}},
+		opGen{"write-file-named-like-ignored-dir", always, func(g *G) Step {
+			// a regular FILE whose name is the name of a `name/` entry (the entry is about directories)
+			dir := g.Pick(g.knownDirs(), "dir")
+			p := g.Pick(IgnoreDirs, "ignDirName")
+			if dir != "" {
+				p = dir + "/" + p
+			}
+			if !g.pathUsable(p) || g.E.Cur.Work.Dirs[p] || ignoreClass(ignoreLines(g.E.Cur), p) != "no" {
 				p = g.NewPath()
 			}
 			return Step{Op: "write", Path: p, Data: g.SmallContent()}
@@ -206,5 +222,5 @@ func init() {
 	)
 }
 
-var ignoreWeights = Weights{"write-new": 14, "write-ignored": 16, "modify": 6, "remove-file": 3, "add": 8, "add-dot": 16, "add-dir": 14, "add-goit-path": 4, "write-near-goit": 5, "add-abs": 5, "ignore-more": 3, "write-ext-dir": 4, "dir2file": 3,
+var ignoreWeights = Weights{"write-new": 14, "write-ignored": 16, "modify": 6, "remove-file": 3, "add": 8, "add-dot": 16, "add-dir": 14, "add-goit-path": 4, "write-near-goit": 5, "write-file-named-like-ignored-dir": 4, "add-abs": 5, "ignore-more": 3, "write-ext-dir": 4, "dir2file": 3,
 	"status": 10, "commit": 8, "reset-hard-0": 4, "restore-dir": 4, "rm": 2}
